@@ -7,6 +7,7 @@ import (
 
 	"github.com/ethereum/go-ethereum/consensus/misc"
 	ethtypes "github.com/ethereum/go-ethereum/core/types"
+	ethparams "github.com/ethereum/go-ethereum/params"
 
 	sdk "github.com/cosmos/cosmos-sdk/types"
 
@@ -21,19 +22,26 @@ func (k Keeper) CalculateBaseFee(ctx sdk.Context) sdkmath.Int {
 	params := k.GetParams(ctx)
 
 	var gasLimit *big.Int
-	// NOTE: a MaxGas equal to -1 means that block gas is unlimited
-	if consParams := ctx.ConsensusParams(); consParams.Block != nil && consParams.Block.MaxGas > -1 {
+	// NOTE: a MaxGas equal to -1 or 0 means that block gas is unlimited
+	if consParams := ctx.ConsensusParams(); consParams.Block != nil && consParams.Block.MaxGas > 0 {
 		gasLimit = big.NewInt(consParams.Block.MaxGas)
 	} else {
 		gasLimit = new(big.Int).SetUint64(math.MaxUint64)
 	}
 
-	nextBaseFee := misc.CalcBaseFee(k.evmKeeper.GetChainConfig(ctx), &ethtypes.Header{
-		Number:   big.NewInt(ctx.BlockHeight()),
-		GasLimit: gasLimit.Uint64(),
-		GasUsed:  ctx.BlockGasMeter().GasConsumedToLimit(),
-		BaseFee:  params.BaseFee.BigInt(),
-	})
+	var nextBaseFee *big.Int
+	if gasTarget := gasLimit.Uint64() / ethparams.ElasticityMultiplier; gasTarget == 0 {
+		// The gas target of a block gas limit lower than the elasticity multiplier is zero,
+		// the EIP-1559 formula divides by the gas target, so the base fee is left unchanged.
+		nextBaseFee = params.BaseFee.BigInt()
+	} else {
+		nextBaseFee = misc.CalcBaseFee(k.evmKeeper.GetChainConfig(ctx), &ethtypes.Header{
+			Number:   big.NewInt(ctx.BlockHeight()),
+			GasLimit: gasLimit.Uint64(),
+			GasUsed:  ctx.BlockGasMeter().GasConsumedToLimit(),
+			BaseFee:  params.BaseFee.BigInt(),
+		})
+	}
 
 	// Set global min gas price as lower bound of the base fee, transactions below
 	// the min gas price don't even reach the mempool.
